@@ -5,7 +5,7 @@
    src/halmos/sevm.py (Gen/GenBranch.v).  Conditions are semantic: functions of the valuation
    of the symbolic inputs.  No proofs in this file. *)
 From Coq Require Import ZArith List Bool.
-From HV Require Import Gen.GenBranch.
+From HV Require Import Gen.GenBranch Gen.GenAssertBranch.
 Import ListNotations.
 Open Scope Z_scope.
 
@@ -44,5 +44,16 @@ Definition jump_alternatives (valid : list Z) (dst : V -> Z) : option (list (Z *
   | [] => None
   | kept => Some (map (fun t => (t, fun v => dst v =? t)) kept)
   end.
+
+(* ---- vm.assert* (hevm_cheat_code.handle): c is the asserted relation.  (true, k): a state that ends as
+   a failed assertion, under the additional constraint k; (false, k): the state that goes on. *)
+Definition assert_alternatives (c : cnd) : list (bool * cnd) :=
+  if assert_all_fail (chk c) then [(true, fun _ => true)]
+  else (if assert_fail_keep (chk (fun v => negb (c v))) then [(true, fun v => negb (c v))] else [])
+       ++ [(false, fun _ => true)].
+
+(* ---- vm.assume: the state goes on under the assumed condition (abandoned only when the condition
+   simplifies to false, i.e. holds nowhere) *)
+Definition assume_alternatives (c : cnd) : list cnd := [c].
 
 End BranchPoints.
